@@ -2,8 +2,9 @@
 //! and `FieldType::extract` at the scalar leaves (rs/anda_db_schema/src/field.rs).
 //! Child module of `anda_db_schema::field` (cfg(kani), scratch copy only).
 //!
-//! One harness per cell (declared type T, value variant V): the pair is concrete
-//! (rule 1), the payload ranges over the full u64 / i64 / f64 / f32 / bool domain.
+//! One concrete block per cell (declared type T, value variant V), one harness per
+//! T (its cells for T and Option<T>): the pair is concrete (rule 1), the payload
+//! ranges over the full u64 / i64 / f64 / f32 / bool domain.
 //! Every FieldValue / FieldType / Cbor / Result lives in ManuallyDrop (rule 2).
 use super::*;
 use core::mem::ManuallyDrop;
@@ -24,13 +25,16 @@ fn check_cell(t: &FieldType, before: &FieldValue, v: &mut FieldValue) {
     // (1) nothing invalid gets in / what the documentation promises is accepted
     let r = ManuallyDrop::new(t.validate_inner(v));
     let accepted = r.is_ok();
-    assert!(!accepted || member, "OBL:C13.leaf.nothing_invalid");
-    assert!(!member || accepted, "OBL:C13.leaf.accepts_documented");
+    // (Kani assumes an assertion after checking it, so of two assertions refuted by
+    // the same executions only the first is reported: the two specific sentences
+    // come first, the general ones after.)
     assert!(!spec_is_nan(before) || !accepted, "OBL:C13.leaf.nan_rejected");
     assert!(
         !matches!(before, FieldValue::Null) || accepted == is_option(t),
         "OBL:C13.leaf.null_only_under_option"
     );
+    assert!(!accepted || member, "OBL:C13.leaf.nothing_invalid");
+    assert!(!member || accepted, "OBL:C13.leaf.accepts_documented");
 
     // (2) returned in the declared variant, value unchanged
     t.normalize(v);
@@ -57,8 +61,22 @@ macro_rules! cell {
     }};
 }
 
-/// One row of the (T, V) table: declared type T concrete, the eight value
-/// variants as eight concrete blocks, payloads symbolic over their full domain.
+macro_rules! cells {
+    ($t:expr, $b:ident, $i:ident, $u:ident, $x:ident, $y:ident) => {{
+        cell!($t, FieldValue::Bool($b));
+        cell!($t, FieldValue::I64($i));
+        cell!($t, FieldValue::U64($u));
+        cell!($t, FieldValue::F64($x));
+        cell!($t, FieldValue::F32($y));
+        cell!($t, FieldValue::Null);
+        cell!($t, FieldValue::Text(String::new()));
+        cell!($t, FieldValue::Bytes(Vec::new()));
+    }};
+}
+
+/// One row of the (T, V) table, for T and for Option<T>: the declared type is
+/// concrete, the eight value variants are eight concrete blocks each, payloads
+/// symbolic over their full domain (16 cells per harness).
 macro_rules! leaf_row {
     ($name:ident, $t:expr) => {
         #[kani::proof]
@@ -68,19 +86,14 @@ macro_rules! leaf_row {
         #[kani::stub(FieldValue::json_from, stub_json_from)]
         fn $name() {
             let t = ManuallyDrop::new($t);
+            let ot = ManuallyDrop::new(opt($t));
             let b: bool = kani::any();
             let i: i64 = kani::any();
             let u: u64 = kani::any();
             let x: f64 = kani::any();
             let y: f32 = kani::any();
-            cell!(&t, FieldValue::Bool(b));
-            cell!(&t, FieldValue::I64(i));
-            cell!(&t, FieldValue::U64(u));
-            cell!(&t, FieldValue::F64(x));
-            cell!(&t, FieldValue::F32(y));
-            cell!(&t, FieldValue::Null);
-            cell!(&t, FieldValue::Text(String::new()));
-            cell!(&t, FieldValue::Bytes(Vec::new()));
+            cells!(&t, b, i, u, x, y);
+            cells!(&ot, b, i, u, x, y);
             kani::cover!(true, "COVER:reach");
         }
     };
@@ -93,13 +106,6 @@ leaf_row!(c13_leaf_f64, FieldType::F64);
 leaf_row!(c13_leaf_f32, FieldType::F32);
 leaf_row!(c13_leaf_bytes, FieldType::Bytes);
 leaf_row!(c13_leaf_text, FieldType::Text);
-leaf_row!(c13_leaf_opt_bool, opt(FieldType::Bool));
-leaf_row!(c13_leaf_opt_i64, opt(FieldType::I64));
-leaf_row!(c13_leaf_opt_u64, opt(FieldType::U64));
-leaf_row!(c13_leaf_opt_f64, opt(FieldType::F64));
-leaf_row!(c13_leaf_opt_f32, opt(FieldType::F32));
-leaf_row!(c13_leaf_opt_bytes, opt(FieldType::Bytes));
-leaf_row!(c13_leaf_opt_text, opt(FieldType::Text));
 
 // ---- extract (FieldType::extract -> FieldValue::{bool,i64,u64,f64,f32,bytes,text}_from) ----
 
@@ -132,8 +138,20 @@ macro_rules! xcell {
     }};
 }
 
-/// One row of the (T, CBOR kind) table; the CBOR integer ranges over the whole
-/// CBOR integer domain -2^64 ..= 2^64-1, the float over all of f64.
+macro_rules! xcells {
+    ($t:expr, $b:ident, $int:ident, $x:ident) => {{
+        xcell!($t, Cbor::Bool($b));
+        xcell!($t, Cbor::Integer($int));
+        xcell!($t, Cbor::Float($x));
+        xcell!($t, Cbor::Null);
+        xcell!($t, Cbor::Text(String::new()));
+        xcell!($t, Cbor::Bytes(Vec::new()));
+    }};
+}
+
+/// One row of the (T, CBOR kind) table, for T and for Option<T>; the CBOR integer
+/// ranges over the whole CBOR integer domain -2^64 ..= 2^64-1, the float over all
+/// of f64 (12 cells per harness).
 macro_rules! extract_row {
     ($name:ident, $t:expr) => {
         #[kani::proof]
@@ -143,18 +161,15 @@ macro_rules! extract_row {
         #[kani::stub(FieldValue::json_from, stub_json_from)]
         fn $name() {
             let t = ManuallyDrop::new($t);
+            let ot = ManuallyDrop::new(opt($t));
             let b: bool = kani::any();
             let n: i128 = kani::any();
             let int = cbor2::value::Integer::try_from(n);
             kani::assume(int.is_ok());
             let int = int.unwrap();
             let x: f64 = kani::any();
-            xcell!(&t, Cbor::Bool(b));
-            xcell!(&t, Cbor::Integer(int));
-            xcell!(&t, Cbor::Float(x));
-            xcell!(&t, Cbor::Null);
-            xcell!(&t, Cbor::Text(String::new()));
-            xcell!(&t, Cbor::Bytes(Vec::new()));
+            xcells!(&t, b, int, x);
+            xcells!(&ot, b, int, x);
             kani::cover!(true, "COVER:reach");
         }
     };
@@ -167,10 +182,3 @@ extract_row!(c13_extract_f64, FieldType::F64);
 extract_row!(c13_extract_f32, FieldType::F32);
 extract_row!(c13_extract_bytes, FieldType::Bytes);
 extract_row!(c13_extract_text, FieldType::Text);
-extract_row!(c13_extract_opt_bool, opt(FieldType::Bool));
-extract_row!(c13_extract_opt_i64, opt(FieldType::I64));
-extract_row!(c13_extract_opt_u64, opt(FieldType::U64));
-extract_row!(c13_extract_opt_f64, opt(FieldType::F64));
-extract_row!(c13_extract_opt_f32, opt(FieldType::F32));
-extract_row!(c13_extract_opt_bytes, opt(FieldType::Bytes));
-extract_row!(c13_extract_opt_text, opt(FieldType::Text));
